@@ -71,20 +71,44 @@ func Load(repo string, patterns []string, overlay map[string][]byte) (*Loader, e
 	return ld, nil
 }
 
-// evalType resolves a Go type expression in the scope of one of the package's files (so that the
-// file's imports are visible).
-func (ld *Loader) evalType(sp *ssa.Package, text string) types.Type {
+// evalType resolves a Go type expression in the scope of a package: for packages loaded with
+// syntax, in the scope of one of its files (so that the file's imports are visible); for
+// dependencies known from export data, in the package scope.
+func (ld *Loader) evalType(pkgPath string, text string) types.Type {
 	var pkg *packages.Package
+	seen := map[string]bool{}
+	var find func(ps map[string]*packages.Package)
 	for _, p := range ld.pkgs {
-		if p.PkgPath == sp.Pkg.Path() {
+		if p.PkgPath == pkgPath {
 			pkg = p
 		}
 	}
 	if pkg == nil {
+		find = func(ps map[string]*packages.Package) {
+			for path, p := range ps {
+				if seen[path] || pkg != nil {
+					continue
+				}
+				seen[path] = true
+				if path == pkgPath {
+					pkg = p
+					return
+				}
+				find(p.Imports)
+			}
+		}
+		for _, p := range ld.pkgs {
+			find(p.Imports)
+		}
+	}
+	if pkg == nil || pkg.Types == nil {
 		return nil
 	}
-	// try package scope first, then each file scope
-	if tv, err := types.Eval(pkg.Fset, pkg.Types, token.NoPos, text); err == nil && tv.IsType() {
+	fset := pkg.Fset
+	if fset == nil {
+		fset = ld.prog.Fset
+	}
+	if tv, err := types.Eval(fset, pkg.Types, token.NoPos, text); err == nil && tv.IsType() {
 		return tv.Type
 	}
 	for _, f := range pkg.Syntax {
@@ -92,7 +116,7 @@ func (ld *Loader) evalType(sp *ssa.Package, text string) types.Type {
 		if len(f.Decls) > 0 {
 			pos = f.Decls[len(f.Decls)-1].Pos()
 		}
-		if tv, err := types.Eval(pkg.Fset, pkg.Types, pos, text); err == nil && tv.IsType() {
+		if tv, err := types.Eval(fset, pkg.Types, pos, text); err == nil && tv.IsType() {
 			return tv.Type
 		}
 	}
